@@ -65,7 +65,12 @@ def generate(rng):
             i = i + 1
         bursts[i]['d'] = d
     scn['bursts'] = bursts
-    scn['filters'] = rng.choice(['none', 'none', 'in', 'out', 'both'])
+    scn['filters'] = rng.choice(['none', 'none', 'in', 'out', 'both', 'in_q2esc', 'in_q2esc', 'in_stripesc'])
+    if scn['filters'] == 'in_q2esc' and esc is not None and bursts:
+        # the filter turns Ctrl-Q into the escape character: the session must end there
+        b0 = rng.choice(bursts)
+        p0 = rng.randint(0, len(b0['d']))
+        b0['d'] = b0['d'][:p0] + '\x11' + b0['d'][p0:]
     scn['pending'] = rng.choice(['', '', 'PENDING-OUTPUT\r\n', 'x' * 1500])
     scn['child_echo'] = rng.random() < 0.5
     out = []
@@ -222,12 +227,16 @@ def run(scn, prop=None):
         filt = scn.get('filters', 'none')
 
         def in_f(b):
+            if filt == 'in_q2esc' and esc is not None:
+                return b.replace(b'\x11', bytes([esc]))
+            if filt == 'in_stripesc' and esc is not None:
+                return b.replace(bytes([esc]), b'')
             return b.replace(b'a', b'AA')
 
         def out_f(b):
             return b.replace(b'0', b'oo')
         kwargs = {}
-        if filt in ('in', 'both'):
+        if filt in ('in', 'both', 'in_q2esc', 'in_stripesc'):
             kwargs['input_filter'] = in_f
         if filt in ('out', 'both'):
             kwargs['output_filter'] = out_f
